@@ -437,6 +437,202 @@ func genE2E(r *repo) string {
 		b.WriteString(fmt.Sprintf("def fmp4StartDTSSeconds : Int := %d\n\n", n))
 	}
 
+	// --- client side of the renditions (c09_renditions)
+	b.WriteString(e2eClientRenditions(p))
+
 	b.WriteString("end Hls.Gen.E2E\n")
+	return b.String()
+}
+
+// e2eSel renders `a.b.c` as "a.b.c".
+func e2eSel(e ast.Expr) (string, bool) {
+	switch x := e.(type) {
+	case *ast.Ident:
+		return x.Name, true
+	case *ast.SelectorExpr:
+		a, ok := e2eSel(x.X)
+		if !ok {
+			return "", false
+		}
+		return a + "." + x.Sel.Name, true
+	}
+	return "", false
+}
+
+// e2eClientRenditions: how the client turns the EXT-X-MEDIA entries into tracks.
+//   - clientStreamProcessorFMP4.run: the fields of the `&Track{…}` literal that are IIFEs of the shape
+//     `func() T { if !p.isLeading { return p.rendition.X }; return <zero> }()`  →  (Track field, rendition field)
+//   - clientPrimaryDownloader.run: `if leadingPlaylist.Audio != ""`, `getRenditionsByGroup(plt.Renditions,
+//     leadingPlaylist.Audio)`, `if pl.URI == nil { continue }`, and the stream literal with `isLeading: false`,
+//     `rendition: pl`
+//   - getRenditionsByGroup / pickLeadingPlaylist: source pins (the model mirrors them by hand)
+func e2eClientRenditions(p *pkgSrc) string {
+	var b strings.Builder
+	// (a) Track literal
+	{
+		fd := p.mustFunc("clientStreamProcessorFMP4", "run")
+		var lit *ast.CompositeLit
+		ast.Inspect(fd.Body, func(n ast.Node) bool {
+			if cl, ok := n.(*ast.CompositeLit); ok && lit == nil {
+				if id, ok := cl.Type.(*ast.Ident); ok && id.Name == "Track" {
+					lit = cl
+					return false
+				}
+			}
+			return true
+		})
+		if lit == nil {
+			fatalf("clientStreamProcessorFMP4.run: no Track literal")
+		}
+		var rows []string
+		var plain []string
+		for _, el := range lit.Elts {
+			kv, ok := el.(*ast.KeyValueExpr)
+			if !ok {
+				fatalf("clientStreamProcessorFMP4.run: positional field in the Track literal")
+			}
+			key := kv.Key.(*ast.Ident).Name
+			call, ok := kv.Value.(*ast.CallExpr)
+			fl, ok2 := (ast.Expr)(nil), false
+			if ok {
+				fl, ok2 = call.Fun.(*ast.FuncLit)
+			}
+			if !ok || !ok2 {
+				plain = append(plain, key)
+				continue
+			}
+			body := fl.(*ast.FuncLit).Body.List
+			if len(call.Args) != 0 || len(body) != 2 {
+				fatalf("clientStreamProcessorFMP4.run: Track.%s: unexpected closure", key)
+			}
+			ifs, ok := body[0].(*ast.IfStmt)
+			ret, ok2 := body[1].(*ast.ReturnStmt)
+			if !ok || !ok2 || ifs.Init != nil || ifs.Else != nil || len(ifs.Body.List) != 1 || len(ret.Results) != 1 {
+				fatalf("clientStreamProcessorFMP4.run: Track.%s: unexpected closure body", key)
+			}
+			if ue, ok := ifs.Cond.(*ast.UnaryExpr); !ok || ue.Op != token.NOT {
+				fatalf("clientStreamProcessorFMP4.run: Track.%s: guard is not !p.isLeading", key)
+			} else if s, ok := e2eSel(ue.X); !ok || s != "p.isLeading" {
+				fatalf("clientStreamProcessorFMP4.run: Track.%s: guard is not !p.isLeading", key)
+			}
+			r0, ok := ifs.Body.List[0].(*ast.ReturnStmt)
+			if !ok || len(r0.Results) != 1 {
+				fatalf("clientStreamProcessorFMP4.run: Track.%s: unexpected guarded statement", key)
+			}
+			src, ok := e2eSel(r0.Results[0])
+			if !ok || !strings.HasPrefix(src, "p.rendition.") {
+				fatalf("clientStreamProcessorFMP4.run: Track.%s does not read p.rendition", key)
+			}
+			zero := ""
+			switch z := ret.Results[0].(type) {
+			case *ast.BasicLit:
+				zero = z.Value
+			case *ast.Ident:
+				zero = z.Name
+			default:
+				fatalf("clientStreamProcessorFMP4.run: Track.%s: unexpected default", key)
+			}
+			if zero != `""` && zero != "false" {
+				fatalf("clientStreamProcessorFMP4.run: Track.%s: default %s is not a zero value", key, zero)
+			}
+			rows = append(rows, "("+mvLeanStr(key)+", "+mvLeanStr(strings.TrimPrefix(src, "p.rendition."))+")")
+		}
+		b.WriteString("/-- `clientStreamProcessorFMP4.run` (" + p.fset.Position(fd.Pos()).String() + "): fields of the `Track` literal that are copied from\n    `p.rendition` when `!p.isLeading` (zero value otherwise): (Track field, rendition field) -/\n")
+		b.WriteString("def clientTrackCopies : List (String × String) := [" + strings.Join(rows, ", ") + "]\n")
+		b.WriteString("/-- the other fields of that literal -/\n")
+		b.WriteString("def clientTrackPlainFields : List String := " + mvLeanStrList(plain) + "\n\n")
+	}
+	// (b) clientPrimaryDownloader.run
+	{
+		fd := p.mustFunc("clientPrimaryDownloader", "run")
+		variantField, skipNil := "", ""
+		guard := false
+		var lits []*ast.CompositeLit
+		ast.Inspect(fd.Body, func(n ast.Node) bool {
+			switch x := n.(type) {
+			case *ast.CallExpr:
+				if id, ok := x.Fun.(*ast.Ident); ok && id.Name == "getRenditionsByGroup" && len(x.Args) == 2 {
+					a0, _ := e2eSel(x.Args[0])
+					a1, ok := e2eSel(x.Args[1])
+					if a0 != "plt.Renditions" || !ok || !strings.HasPrefix(a1, "leadingPlaylist.") {
+						fatalf("clientPrimaryDownloader.run: unexpected getRenditionsByGroup arguments")
+					}
+					variantField = strings.TrimPrefix(a1, "leadingPlaylist.")
+				}
+			case *ast.IfStmt:
+				if be, ok := x.Cond.(*ast.BinaryExpr); ok {
+					l, _ := e2eSel(be.X)
+					if be.Op == token.NEQ && strings.HasPrefix(l, "leadingPlaylist.") {
+						if s, ok := mvStr(be.Y); ok && s == "" {
+							if variantField != "" && variantField != strings.TrimPrefix(l, "leadingPlaylist.") {
+								fatalf("clientPrimaryDownloader.run: guard and lookup use different fields")
+							}
+							guard = true
+						}
+					}
+					if be.Op == token.EQL && strings.HasPrefix(l, "pl.") {
+						if id, ok := be.Y.(*ast.Ident); ok && id.Name == "nil" && len(x.Body.List) == 1 {
+							if br, ok := x.Body.List[0].(*ast.BranchStmt); ok && br.Tok == token.CONTINUE {
+								skipNil = strings.TrimPrefix(l, "pl.")
+							}
+						}
+					}
+				}
+			case *ast.CompositeLit:
+				if id, ok := x.Type.(*ast.Ident); ok && id.Name == "clientStreamDownloader" {
+					lits = append(lits, x)
+				}
+			}
+			return true
+		})
+		if variantField == "" || !guard || skipNil == "" {
+			fatalf("clientPrimaryDownloader.run: rendition loop not found (group field %q, guard %v, nil-skip %q)", variantField, guard, skipNil)
+		}
+		// stream literals: [media playlist, leading of a multivariant, rendition]
+		var shapes []string
+		for _, l := range lits {
+			lead, rend := "?", "none"
+			for _, el := range l.Elts {
+				kv := el.(*ast.KeyValueExpr)
+				switch kv.Key.(*ast.Ident).Name {
+				case "isLeading":
+					lead = kv.Value.(*ast.Ident).Name
+				case "rendition":
+					rend, _ = e2eSel(kv.Value)
+				}
+			}
+			shapes = append(shapes, "("+lead+", "+mvLeanStr(rend)+")")
+		}
+		b.WriteString("/-- `clientPrimaryDownloader.run` (" + p.fset.Position(fd.Pos()).String() + "): renditions are looked up when the chosen variant's\n    field … is non-empty, by that value -/\n")
+		b.WriteString("def clientVariantGroupField : String := " + mvLeanStr(variantField) + "\n")
+		b.WriteString("/-- a rendition whose field … is nil is skipped (its data travels in the variant's own playlist) -/\n")
+		b.WriteString("def clientRenditionSkipNilField : String := " + mvLeanStr(skipNil) + "\n")
+		b.WriteString("/-- the `clientStreamDownloader` literals of `run` in source order: (isLeading, what `rendition:` is set to) -/\n")
+		b.WriteString("def clientStreamLiterals : List (Bool × String) := [" + strings.Join(shapes, ", ") + "]\n")
+	}
+	// (c) getRenditionsByGroup: the compared field; pins
+	{
+		fd := p.mustFunc("", "getRenditionsByGroup")
+		field := ""
+		ast.Inspect(fd.Body, func(n ast.Node) bool {
+			if be, ok := n.(*ast.BinaryExpr); ok && be.Op == token.EQL {
+				l, _ := e2eSel(be.X)
+				r, _ := e2eSel(be.Y)
+				if strings.HasPrefix(l, "alt.") && r == "groupID" {
+					field = strings.TrimPrefix(l, "alt.")
+				}
+			}
+			return true
+		})
+		if field == "" {
+			fatalf("getRenditionsByGroup: comparison `alt.X == groupID` not found")
+		}
+		b.WriteString("/-- `getRenditionsByGroup`: the rendition field compared with the group id -/\n")
+		b.WriteString("def clientRenditionGroupField : String := " + mvLeanStr(field) + "\n")
+		h1, _ := pinOf(p.fset, funcNoDoc(fd))
+		h2, _ := pinOf(p.fset, funcNoDoc(p.mustFunc("", "pickLeadingPlaylist")))
+		b.WriteString("/-- source pins (SHA-256 prefix of the comment-free, white-space-normalised text) of the two helpers the client\n    model `Hls.E2E.Renditions` mirrors by hand -/\n")
+		b.WriteString("def clientRenditionPins : List (String × String) := [(\"getRenditionsByGroup\", " + mvLeanStr(h1) + "), (\"pickLeadingPlaylist\", " + mvLeanStr(h2) + ")]\n\n")
+	}
 	return b.String()
 }
